@@ -168,10 +168,25 @@ def body_real(case, ctx):
     desc = case['mesh']
     m = build_mesh(desc)
     kind = gm.mesh_kind(desc)
+    # the mesh as the user holds it when the basis is built: fresh, after operations whose results were discarded, or itself the
+    # result of an adaptive refinement (a function of the case, no extra draw)
+    post = ['none', 'none', 'discarded_ops', 'adaptive'][(len(case.get('subset') or []) + len(desc['t'][0])) % 4]
+    if post == 'discarded_ops' and desc['cls'].endswith('1') and 'curved' not in desc['feat']:
+        _ = m.facets, m.t2f
+        if kind in ('tri', 'tet'):
+            m.oriented()
+        if kind in ('line', 'tri', 'tet'):
+            m.refined(np.array([0], dtype=np.int64))
+        m.translated(tuple([1.0] * m.dim()))
+    elif post == 'adaptive' and kind in ('line', 'tri', 'tet') and desc['cls'].endswith('1') and m.nelements <= 12 \
+            and desc.get('sort_t') is not False:
+        m = m.refined(np.array(sorted({0, m.nelements // 2}), dtype=np.int64))
+    else:
+        post = 'none'
     e = build_element(case['elem'])
     lab = ge.label(case['elem'])
     sig = dict(mesh=desc['cls'], elem=lab)
-    ctx.cls(desc['cls'], 'elem:' + case['elem']['cls'])
+    ctx.cls(desc['cls'], 'elem:' + case['elem']['cls'], 'post:' + post)
     counts = (e.nodal_dofs, e.edge_dofs, e.facet_dofs, e.interior_dofs)
     kinds_with_dofs = sum(1 for x in (e.nodal_dofs, e.edge_dofs if m.dim() == 3 else 0, e.facet_dofs, e.interior_dofs) if x)
     ctx.nt(kinds_with_dofs >= 2 or case['elem']['cls'] in ('ElementVector', 'ElementDG', 'ElementComposite')
